@@ -28,6 +28,23 @@ def run(ctx):
     )
     ctx.assumptions = ["the file system reports existence of the artifacts truthfully; one client, no concurrency (C20)"]
     with core.Lock():
+        # T-tie: the DatasetExistence flag values, its __bool__ and the tail of DirectButler.exists (how the datastore's answers
+        # are folded into the flags) are translated from the working tree into Gen/ExistsPy.lean; C10.Translated.exists_flags /
+        # exists_truth are proved about the translation.  The values read from the source text are compared with the live enum.
+        import sys as _sys
+
+        _sys.path.insert(0, os.path.join(core.VERIF, "translate"))
+        try:
+            import gen_exists
+
+            facts = gen_exists.generate(core.GEN_DIR)
+            from lsst.daf.butler import DatasetExistence as _DE
+
+            live = {m: getattr(_DE, m).value for m in facts["members"]}
+            if live != facts["members"]:
+                ctx.broken.append(f"facts: DatasetExistence values read from the source {facts['members']} differ from the live enum {live}")
+        except Exception as e:
+            ctx.broken.append(f"translation: DatasetExistence / DirectButler.exists: {type(e).__name__}: {e}")
         built = core.lean_build(ctx, LEAN_TARGETS)
         if built:
             core.lean_audit(ctx, ["ButlerModel.Props.C10"])
